@@ -330,6 +330,27 @@ def run_check(mod, tier, seed, replay=None):
         return 2
 
     ctx["broken"] = broken
+    # safety net: a change to the library that makes some call never return (a deadlock, an endless loop) must not hang the
+    # check.  The property modules have their own watchdogs around the calls they expect to be able to hang; this one is for
+    # everything else.  When it fires the check reports a violation without a failing input and exits.
+    import threading
+    limit = int(os.environ.get("VERIF_RUN_LIMIT_S", "1500" if tier == "quick" else "14400"))
+
+    def _overrun():
+        path = write_replay(prop_id, seed, {"property": prop_id, "tier": tier, "seed": seed, "kind": "unproved",
+                                            "reason": {"broken_obligations": [f"the correspondence / oracle run did not finish within {limit} s: "
+                                                                              "some call into the library never returned"],
+                                                       "disagreements": []},
+                                            "no_failing_input_found": True, "replay_cmd": f"./check {prop_id} --replay <this file>"})
+        write_evidence(prop_id, {"property_id": prop_id, "tier": tier, "seed": seed, "level": "proof",
+                                 "coverage": {"obligations": 1, "discharged": 0, "checker_cmd": "n/a (run did not finish)",
+                                              "trusted_base": TRUSTED_BASE, "broken_obligations": [f"run did not finish within {limit} s"]},
+                                 "assumptions": getattr(mod, "ASSUMPTIONS", []), "wall_s": round(time.time() - t0, 2), "violations": 1})
+        print(f"VIOLATION property={prop_id} replay={path} no-failing-input-found", flush=True)
+        os._exit(1)
+    watchdog = threading.Timer(limit, _overrun)       # a thread, not SIGALRM: property modules use the alarm for their own per-case limits
+    watchdog.daemon = True
+    watchdog.start()
     outcome = mod.run(ctx)
 
     findings = load_findings(prop_id)
@@ -412,6 +433,7 @@ def run_check(mod, tier, seed, replay=None):
         "wall_s": round(wall, 2),
         "violations": 0 if violation is None else 1,
     }
+    watchdog.cancel()
     write_evidence(prop_id, evidence)
     if violation is None:
         log(f"[{prop_id}] held: {n_theorems} obligations, {outcome.evaluations} cases ({len(outcome.nontrivial)} distinct non-trivial), {len(known_lines)} known findings, {wall:.1f}s")
